@@ -1184,6 +1184,125 @@ def find_failing_node(e, P):
     return e
 
 
+def judge(e, P, memo, api=None):
+    """Compare the real API with the NumPy denotation on ONE program.
+    Returns (verdict, detail, magnitude-relative error); verdict is one of
+      ok / rejected (both agree), skip (outside the property), notimpl (transpose of a lazy discrete operator),
+      accepts (incompatible combination returns numbers), unknown (returns an object instead of raising),
+      raises (documented combination raises), wrong (numbers differ from the plain NumPy expression)."""
+    key = " ".join(tokens(e))
+    if key in memo:
+        return memo[key]
+
+    def done(v, detail="", err=0.0):
+        memo[key] = (v, detail, err)
+        return memo[key]
+    try:
+        sv = spec_force(spec_eval(e, P), P)
+        spec = "ok"
+    except SpecErr:
+        spec, sv = "err", None
+    except SpecAny:
+        return done("skip")
+    r = api if api is not None else py_run(e, P)
+    if r[0] == "err" and isinstance(r[3], Scope):
+        return done("skip")
+    api_ok = r[0] == "ok"
+    exc = None if api_ok else r[3]
+    if spec == "err":
+        if isinstance(exc, UnknownResult):
+            return done("unknown", str(exc)[:100])
+        if api_ok:
+            return done("accepts", f"the API returns {r[1][0]} instead of raising")
+        return done("rejected")
+    if not api_ok:
+        if isinstance(exc, NotImplementedError) and any(t in key.split() for t in ("transpose", "adjoint")):
+            return done("notimpl")   # lazy discrete operators have no transpose / adjoint in the API (see ASSUMPTIONS)
+        return done("raises", f"{type(exc).__name__}: {str(exc)[:100]}")
+    obs, v = r[1], r[2]
+    mag = max(1.0, sv.mag)
+    worst, bad = 0.0, None
+
+    def cmp(a, b, what):
+        nonlocal worst, bad
+        ok, e_ = _close(a, b, mag)
+        if e_ != float("inf"):
+            worst = max(worst, e_)
+        if not ok and bad is None:
+            bad = f"{what} (rel {e_:.2e})"
+    if sv.kind == "S":
+        cmp([obs[3]], [sv.v], "scalar value")
+    elif sv.kind == "D":
+        if obs[0] != "mat":
+            bad = f"result kind {obs[0]}"
+        else:
+            cmp(obs[4], sv.M, "to_dense vs NumPy expression")
+            cmp(obs[5], sv.M @ probe(sv.M.shape[1]), "matvec on a complex vector vs NumPy expression")
+            from bempp_cl.api.assembly.discrete_boundary_operator import _DiscreteOperatorBase
+            d = v if isinstance(v, _DiscreteOperatorBase) else v.weak_form()
+            X = np.column_stack([probe(sv.M.shape[1]), np.real(probe(sv.M.shape[1])) * 2])
+            cmp(np.asarray(d @ X), sv.M @ X, "matmat vs NumPy expression")
+            xr = np.real(probe(sv.M.shape[1]))
+            cmp(np.asarray(d @ xr).reshape(-1), sv.M @ xr, "matvec on a real vector vs NumPy expression")
+    elif sv.kind == "G":
+        if obs[0] != "fn":
+            bad = f"result kind {obs[0]}"
+        else:
+            if obs[1] != sv.space:
+                bad = f"result space {obs[1]} instead of {sv.space}"
+            cmp(obs[5], sv.c, "coefficients vs NumPy expression")
+            if getattr(sv, "image", False):
+                if obs[2] != sv.proj[0]:
+                    bad = bad or f"image is not given by projections onto the dual space ({obs[2]} vs {sv.proj[0]})"
+                else:
+                    cmp(obs[4], sv.proj[1], "projections of the image vs W c")
+    elif sv.kind == "L":
+        if obs[0] != "fns" or len(obs[1]) != len(sv.items):
+            bad = f"result kind/length {obs[0]}"
+        else:
+            for o, g in zip(obs[1], sv.items):
+                if o[0] != g.space:
+                    bad = bad or f"result space {o[0]} instead of {g.space}"
+                cmp(o[4], g.c, "coefficients of a list entry vs NumPy expression")
+                if getattr(g, "image", False) and o[1] == g.proj[0]:
+                    cmp(o[3], g.proj[1], "projections of a blocked image vs slices of W c")
+    elif sv.kind == "P":
+        cmp(obs[2], sv.M @ probe(sv.M.shape[1]), "potential applied to the probe vs NumPy expression")
+    elif sv.kind == "A":
+        cmp(obs[2], sv.v, "potential values vs NumPy expression")
+    if bad:
+        return done("wrong", bad, worst)
+    return done("ok", "", worst)
+
+
+FAIL = ("accepts", "unknown", "raises", "wrong")
+
+
+def shrink(e, P, memo):
+    """smallest sub-program on which the API still fails (root cause of a failing program)"""
+    for x in e[1:]:
+        if isinstance(x, tuple) and judge(x, P, memo)[0] in FAIL:
+            return shrink(x, P, memo)
+    return e
+
+
+def cex_key(verdict, e, P):
+    f = (find_failing_node(e, P) or e) if verdict in ("accepts", "unknown") else e
+    kinds = _kinds(f, P)
+    sig = f[0] + ":" + ":".join(kinds)
+    if verdict == "accepts":
+        return KNOWN_KEYS.get((f[0],) + tuple(kinds), "accepts-incompatible:" + sig), f, kinds
+    if verdict == "unknown":
+        if f[0] in ("add", "sub") and kinds[:1] == ["K"]:
+            return "blocked-add-notimplementederror", f, kinds
+        return "returns-object-instead-of-raising:" + sig, f, kinds
+    if f[0] in ("add", "sub") and kinds == ["P", "P"]:
+        return "potential-operator-sum", f, kinds
+    if f[0] in ("mul", "matmul") and kinds == ["K", "L"]:
+        return "blocked-projections-slice", f, kinds
+    return ("raises:" if verdict == "raises" else "wrong-numbers:") + sig, f, kinds
+
+
 def oracle(ctx, budget=None):
     res = Result()
     P = build_pool(ctx)
@@ -1191,116 +1310,27 @@ def oracle(ctx, budget=None):
     if progs is None or budget:
         progs, _ = select_programs(ctx, P)
     worst = 0.0
-    counts = dict(ok=0, rejected=0, skipped=0, notimpl=0)
+    counts = dict(ok=0, rejected=0, skip=0, notimpl=0, failing=0)
+    memo = {}
     for n in progs:
-        key = " ".join(tokens(n.e))
-        try:
-            sv = spec_force(spec_eval(n.e, P), P)
-            spec = "ok"
-        except SpecErr:
-            spec, sv = "err", None
-        except SpecAny:
-            counts["skipped"] += 1
+        verdict, detail, err = judge(n.e, P, memo, api=api_of(n, P))
+        if verdict == "skip":
+            counts["skip"] += 1
             continue
-        res.case(("oracle", key), nontrivial=False)
-        # the real API
-        r = api_of(n, P)
-        if r[0] == "ok":
-            api_ok, exc, obs, v = True, None, r[1], r[2]
-        elif isinstance(r[3], Scope):
-            counts["skipped"] += 1
+        res.case(("oracle", " ".join(tokens(n.e))), nontrivial=False)
+        worst = max(worst, err)
+        if verdict not in FAIL:
+            counts[verdict] += 1
             continue
-        else:
-            api_ok, exc, obs, v = False, r[3], None, None
-        if spec == "err":
-            counts["rejected"] += 1
-            if isinstance(exc, UnknownResult):
-                f = find_failing_node(n.e, P) or n.e
-                kinds = _kinds(f, P)
-                k = "returns-object-instead-of-raising:" + f[0] + ":" + ":".join(kinds)
-                if f[0] in ("add", "sub") and kinds[:1] == ["K"]:
-                    k = "blocked-add-notimplementederror"
-                res.counterexample(k, f"incompatible combination `{f[0]}` of {kinds} does not raise: {str(exc)[:100]}",
-                                   program=key[:400])
-            if api_ok:
-                f = find_failing_node(n.e, P) or n.e
-                kinds = _kinds(f, P)
-                k = KNOWN_KEYS.get((f[0],) + tuple(kinds), "accepts-incompatible:" + f[0] + ":" + ":".join(kinds))
-                res.counterexample(k, f"incompatible combination `{f[0]}` of {kinds} is not rejected: the API returns "
-                                   f"{obs[0]} instead of raising", program=key, node=" ".join(tokens(f))[:300])
-            continue
-        if not api_ok:
-            if isinstance(exc, NotImplementedError) and any(t in key.split() for t in ("transpose", "adjoint")):
-                # lazy discrete operators have no transpose / adjoint in the API (see ASSUMPTIONS)
-                counts["notimpl"] += 1
-                continue
-            kinds = _kinds(n.e, P)
-            k = "raises:" + n.e[0] + ":" + ":".join(kinds) + ":" + type(exc).__name__
-            if n.e[0] in ("add", "sub") and kinds == ["P", "P"]:
-                k = "potential-operator-sum"
-            if n.e[0] in ("mul", "matmul") and kinds == ["K", "L"]:
-                k = "blocked-projections-slice"
-            res.counterexample(k, f"documented combination raises {type(exc).__name__}: {str(exc)[:100]}", program=key)
-            continue
-        counts["ok"] += 1
-        mag = max(1.0, sv.mag)
-        bad = None
-
-        def cmp(a, b, what):
-            nonlocal worst, bad
-            ok, e_ = _close(a, b, mag)
-            if e_ != float("inf"):
-                worst = max(worst, e_)
-            if not ok and bad is None:
-                bad = f"{what} (rel {e_:.2e})"
-        if sv.kind == "S":
-            cmp([obs[3]], [sv.v], "scalar value")
-        elif sv.kind == "D":
-            if obs[0] != "mat":
-                bad = f"result kind {obs[0]}"
-            else:
-                cmp(obs[4], sv.M, "to_dense vs NumPy expression")
-                cmp(obs[5], sv.M @ probe(sv.M.shape[1]), "matvec on a complex vector vs NumPy expression")
-                # matmat, and a real vector
-                from bempp_cl.api.assembly.discrete_boundary_operator import _DiscreteOperatorBase
-                d = v if isinstance(v, _DiscreteOperatorBase) else v.weak_form()
-                X = np.column_stack([probe(sv.M.shape[1]), np.real(probe(sv.M.shape[1])) * 2])
-                cmp(np.asarray(d @ X), sv.M @ X, "matmat vs NumPy expression")
-                xr = np.real(probe(sv.M.shape[1]))
-                cmp(np.asarray(d @ xr).reshape(-1), sv.M @ xr, "matvec on a real vector vs NumPy expression")
-        elif sv.kind == "G":
-            if obs[0] != "fn":
-                bad = f"result kind {obs[0]}"
-            else:
-                if obs[1] != sv.space:
-                    bad = f"result space {obs[1]} instead of {sv.space}"
-                cmp(obs[5], sv.c, "coefficients vs NumPy expression")
-                if getattr(sv, "image", False):
-                    if obs[2] != sv.proj[0]:
-                        bad = bad or f"image is not given by projections onto the dual space ({obs[2]} vs {sv.proj[0]})"
-                    else:
-                        cmp(obs[4], sv.proj[1], "projections of the image vs W c")
-        elif sv.kind == "L":
-            if obs[0] != "fns" or len(obs[1]) != len(sv.items):
-                bad = f"result kind/length {obs[0]}"
-            else:
-                for o, g in zip(obs[1], sv.items):
-                    if o[0] != g.space:
-                        bad = bad or f"result space {o[0]} instead of {g.space}"
-                    cmp(o[4], g.c, "coefficients of a list entry vs NumPy expression")
-                    if getattr(g, "image", False) and o[1] == g.proj[0]:
-                        cmp(o[3], g.proj[1], "projections of a blocked image vs slices of W c")
-        elif sv.kind == "P":
-            f = sv.M @ probe(sv.M.shape[1])
-            cmp(obs[2], f, "potential applied to the probe vs NumPy expression")
-        elif sv.kind == "A":
-            cmp(obs[2], sv.v, "potential values vs NumPy expression")
-        if bad:
-            kinds = _kinds(n.e, P)
-            k = "wrong-numbers:" + n.e[0] + ":" + ":".join(kinds)
-            if n.e[0] in ("mul", "matmul") and kinds == ["K", "L"]:
-                k = "blocked-projections-slice"
-            res.counterexample(k, f"`{n.e[0]}` of {kinds}: {bad}", program=key[:400])
+        counts["failing"] += 1
+        root = shrink(n.e, P, memo)
+        verdict, detail, _ = judge(root, P, memo)
+        k, f, kinds = cex_key(verdict, root, P)
+        what = {"accepts": f"incompatible combination `{f[0]}` of {kinds} is not rejected: {detail}",
+                "unknown": f"incompatible combination `{f[0]}` of {kinds} does not raise: {detail}",
+                "raises": f"documented combination `{f[0]}` of {kinds} raises {detail}",
+                "wrong": f"`{f[0]}` of {kinds}: {detail}"}[verdict]
+        res.counterexample(k, what, program=" ".join(tokens(root))[:400], found_in=" ".join(tokens(n.e))[:300])
     res.stats["oracle_worst_rel_error"] = worst
     res.stats["oracle_counts"] = counts
     return res
